@@ -59,6 +59,18 @@ def has_interior_mut(t):
     return ty_contains(t, p)
 
 
+def shallow_interior_mut(t):
+    """the outermost object behind the references is itself interior-mutable
+    (element types do not matter for header/address computations)"""
+    while t.get("k") in ("ref", "rawptr"):
+        t = t["to"]
+    if t.get("k") == "adt":
+        if t["name"] in ("Arc", "Rc", "Box", "ManuallyDrop") and t.get("args"):
+            return shallow_interior_mut(t["args"][0])
+        return any(t["name"].startswith(m) for m in E.INTERIOR_MUT)
+    return False
+
+
 class Analysis:
     def __init__(self, prog, f, summaries=None):
         self.prog = prog
@@ -101,6 +113,27 @@ class Analysis:
                 if d["proj"] and not any(e["k"] == "deref" for e in d["proj"]):
                     mem.add(d["local"])
         self.mem_locals = mem
+        # argument locals that are assigned somewhere in the body
+        re = set()
+        for b in self.cfg.rpo:
+            blk = self.blocks[b]
+            for s in blk["stmts"]:
+                if s["k"] == "assign" and not s["place"]["proj"] and 1 <= s["place"]["local"] <= self.nargs:
+                    re.add(s["place"]["local"])
+            t = blk["term"]
+            if t["k"] == "call" and not t["dest"]["proj"] and 1 <= t["dest"]["local"] <= self.nargs:
+                re.add(t["dest"]["local"])
+        self.reassigned = re
+        mutref = set()
+        for b in self.cfg.rpo:
+            for s in self.blocks[b]["stmts"]:
+                if s["k"] == "assign" and s["rv"]["k"] in ("ref", "rawptr") and s["rv"]["mut"] \
+                        and not s["rv"]["place"]["proj"]:
+                    mutref.add(s["rv"]["place"]["local"])
+        self.arg_alias = {}
+        for a in range(1, self.nargs + 1):
+            if a in mem and a not in re and a not in mutref and self.locals[a]["ty"]["k"] in ("ref", "rawptr"):
+                self.arg_alias["L%d" % a] = "A%d" % a
 
     # -- closure mut-capability ----------------------------------------
     def ty_mut_carrier(self, t, depth=0):
@@ -145,13 +178,19 @@ class Analysis:
 
     # -- places -----------------------------------------------------------
     def walk_place(self, place):
-        """-> (mode, region or None, vp, deref_at)
+        """-> (mode, region or None, vp)
         mode 'val': pure projection of an SSA local (vp = value path);
-        mode 'mem': region name of the memory location."""
+        mode 'mem': region name of the memory location.
+        Side effect: records type / field chain / shared-ref immutability of
+        every region prefix in self.region_info."""
         L = place["local"]
         proj = place["proj"]
+        t = self.locals[L]["ty"]
+        chain = ()
+        imm = False
         if L in self.mem_locals:
             mode, name, vp = "mem", "L%d" % L, ""
+            self._reginfo(name, t, chain, imm)
         else:
             mode, name, vp = "val", None, ""
         for e in proj:
@@ -161,26 +200,93 @@ class Analysis:
                     tg = self.pts.get(L, {})
                     if vp == "" and len(tg) == 1:
                         name = next(iter(tg))
+                    elif vp != "" and self.is_value_arg(L):
+                        name = "A%d%s*" % (L, vp)
                     else:
                         name = "P%d%s" % (L, vp)
                         self.palias.setdefault(name, set()).update(tg.keys())
                     mode = "mem"
+                    imm = (t.get("k") == "ref" and not t.get("mut") and not has_interior_mut(t["to"])) \
+                        or self.region_info.get(name, {}).get("imm", False)
+                    t = self._deref_ty(t)
+                    chain = ()
+                    if name in self.region_info and vp == "" and len(tg) == 1:
+                        # the pointer's target was named elsewhere: keep its chain
+                        chain = self.region_info[name]["chain"]
+                    self._reginfo(name, t, chain, imm)
                 elif k == "field":
                     vp += "." + e["name"]
+                    t = e["ty"]
                 elif k == "downcast":
                     vp += "@" + e["variant"]
                 else:
                     vp += "[]"
+                    t = t.get("elem", {"k": "other", "s": "?"})
             else:
                 if k == "deref":
-                    name = name + "*"
+                    name = self.arg_alias.get(name, name + "*")
+                    imm = imm or (t.get("k") == "ref" and not t.get("mut") and not has_interior_mut(t["to"]))
+                    t = self._deref_ty(t)
+                    chain = ()
                 elif k == "field":
                     name = name + "." + e["name"]
+                    if chain is not None:
+                        chain = chain + ((t.get("path", "<%s>" % t.get("k")), e["name"]),)
+                    t = e["ty"]
                 elif k == "downcast":
                     name = name + "@" + e["variant"]
                 else:
                     name = norm_region(name + "#buf")
+                    t = t.get("elem", {"k": "other", "s": "?"})
+                    chain = None
+                self._reginfo(name, t, chain, imm)
         return mode, name, vp
+
+    @staticmethod
+    def _deref_ty(t):
+        to = t.get("to")
+        if to is None:
+            if t.get("k") == "adt" and t.get("name") == "Box" and t.get("args"):
+                return t["args"][0]
+            return {"k": "other", "s": "?"}
+        return to
+
+    def _reginfo(self, name, t, chain, imm):
+        ri = self.region_info.get(name)
+        if ri is None:
+            self.region_info[name] = {"ty": t, "chain": chain, "imm": imm}
+        else:
+            if imm and not ri["imm"]:
+                ri["imm"] = True
+
+    def region_protected(self, r):
+        """writes through other pointers / by callees cannot change this region:
+        it lies behind a shared reference to a type without interior
+        mutability, or it is a header-stable (frozen) field chain."""
+        ri = self.region_info.get(r)
+        if ri is None:
+            # descendants added without a place (summaries): inherit from the longest known prefix
+            best = None
+            for q, qi in self.region_info.items():
+                if is_prefix(q, r) and (best is None or len(q) > len(best)):
+                    best = q
+            if best is None:
+                return False
+            bi = self.region_info[best]
+            if bi["imm"] and "#" not in r[len(best):]:
+                return True
+            return False
+        if ri["imm"]:
+            return True
+        fz = getattr(self.prog, "frozen", None)
+        if fz is not None and ri["chain"]:
+            return fz.is_frozen(ri["chain"])
+        return False
+
+    def is_value_arg(self, L):
+        """argument passed by value (e.g. a closure environment) that is never reassigned"""
+        return 1 <= L <= self.nargs and L not in self.mem_locals \
+            and self.locals[L]["ty"]["k"] not in ("ref", "rawptr") and L not in self.reassigned
 
     def collapsed(self, region):
         return "#buf" in region or region.startswith("P")
@@ -191,6 +297,11 @@ class Analysis:
         p = op["place"]
         mode, name, vp = self.walk_place(p)
         if mode == "val":
+            if vp != "" and self.is_value_arg(p["local"]):
+                ty = self.operand_ty(op)
+                if ty is not None and ty["k"] in ("ref", "rawptr"):
+                    self.regions.add("A%d%s*" % (p["local"], vp))
+                    return {"A%d%s*" % (p["local"], vp): self.ty_mut_carrier(ty)}
             return self.pts.get(p["local"], {})
         out = {name + "*": True}
         for r, tg in self.cpts.items():
@@ -260,7 +371,7 @@ class Analysis:
             return callee_key(fn), fn
         return None, None
 
-    def _call_ret_pts(self, t):
+    def _call_ret_pts(self, t, b=None):
         key, fn = self.call_info(t)
         args = t["args"]
         if key in E.RET_ARG0_BUF and args:
@@ -268,12 +379,30 @@ class Analysis:
             return {norm_region(r + "#buf"): v for r, v in src.items()}
         if key in E.RET_ARG0 and args:
             return dict(self._operand_pts(args[0]))
+        if key == "core::iter::traits::iterator::Iterator::next" and args:
+            # an item points into what the iterator's contents point to, not at the iterator
+            out = {}
+            for r in self._operand_pts(args[0]):
+                for cr, tg in self.cpts.items():
+                    if is_prefix(r, cr) or is_prefix(cr, r):
+                        for k, v in tg.items():
+                            out[k] = out.get(k, False) or v
+                            kb = norm_region(k + "#buf")
+                            out[kb] = out.get(kb, False) or v
+                if r.startswith("A") or r.startswith("P"):
+                    # iterator handed in from outside: its contents are unknown
+                    out[r + "*"] = True
+            if out:
+                return out
         out = {}
         for a in args:
             for r, v in self._operand_pts(a).items():
                 out[r] = out.get(r, False) or v
                 rb = norm_region(r + "#buf")
                 out[rb] = out.get(rb, False) or v
+        if not out and b is not None:
+            # nothing flows in: whatever pointer comes back refers to a fresh object
+            out["H%d" % b] = True
         return out
 
     def _points_to(self):
@@ -281,10 +410,16 @@ class Analysis:
         self.cpts = {}
         self.palias = {}
         self.regions = set()
+        self.region_info = {}
         for a in range(1, self.nargs + 1):
-            self.pts[a] = {"A%d" % a: self.ty_mut_carrier(self.locals[a]["ty"])}
-            if self.locals[a]["ty"]["k"] in ("ref", "rawptr"):
+            aty = self.locals[a]["ty"]
+            self.pts[a] = {"A%d" % a: self.ty_mut_carrier(aty)}
+            if a in self.mem_locals:
+                self.cpts["L%d" % a] = {"A%d" % a: self.ty_mut_carrier(aty)}
+            if aty["k"] in ("ref", "rawptr"):
                 self.regions.add("A%d" % a)
+                self._reginfo("A%d" % a, self._deref_ty(aty), (),
+                              aty["k"] == "ref" and not aty["mut"] and not has_interior_mut(aty["to"]))
         changed = True
         it = 0
         while changed and it < 20:
@@ -298,7 +433,7 @@ class Analysis:
                             changed = True
                 t = blk["term"]
                 if t["k"] == "call":
-                    if self._assign_pts(t["dest"], self._call_ret_pts(t)):
+                    if self._assign_pts(t["dest"], self._call_ret_pts(t, b)):
                         changed = True
         # make sure every place mentioned has its region registered
         for b in self.cfg.rpo:
@@ -320,7 +455,7 @@ class Analysis:
         key, fn = self.call_info(t)
         if fn is None:
             return
-        summ = self.summaries.get(fn.get("resolved") or fn["path"])
+        summ = self.summary_for(fn)
         if summ is None:
             return
         for region in summ[1]:
@@ -440,17 +575,32 @@ class Analysis:
                 out |= self.overlap_writes(r)
         return out
 
+    def summary_for(self, fn):
+        """accessor summary of the function this call certainly reaches"""
+        if "resolved" in fn:
+            return self.summaries.get(fn["resolved"])
+        if "trait" in fn:
+            return None     # unresolved trait method: the impl is unknown
+        return self.summaries.get(fn["path"])
+
     def call_is_pure(self, t):
         key, fn = self.call_info(t)
         if key is None:
             return False
-        if (fn.get("resolved") or fn["path"]) in self.summaries:
+        if self.summary_for(fn) is not None:
             return True
         if key in E.PURE:
+            shallow = key in E.HEADER_ONLY
             for a in t["args"]:
                 if a["k"] in ("copy", "move"):
                     ty = self.operand_ty(a)
-                    if ty is not None and has_interior_mut(ty):
+                    if ty is None:
+                        continue
+                    if ty.get("k") not in ("ref", "rawptr"):
+                        continue    # moved in by value: nothing is read through a shared reference
+                    if key == "core::clone::Clone::clone" and ty["to"].get("k") == "adt" and ty["to"]["name"] in ("Arc", "Rc"):
+                        continue    # cloning the handle does not read the shared contents
+                    if shallow_interior_mut(ty) if shallow else has_interior_mut(ty):
                         return False
             return True
         if not t["args"]:
@@ -513,7 +663,7 @@ class Analysis:
             i = len(blk["stmts"])
             if t["k"] == "call":
                 ds, reg = self._place_defs(t["dest"])
-                ds = set(ds) | self.call_writes(t)
+                ds = set(ds) | {r for r in self.call_writes(t) if not self.region_protected(r)}
                 defs[(b, i)] = ds
                 self.store_region[(b, i)] = reg
             elif t["k"] == "drop":
@@ -525,7 +675,9 @@ class Analysis:
         mode, name, vp = self.walk_place(place)
         if mode == "val":
             return {"v%d" % place["local"]}, None
-        return self.overlap_writes(name) | {name}, name
+        ws = {r for r in self.overlap_writes(name)
+              if is_prefix(name, r) or is_inline_prefix(r, name) or not self.region_protected(r)}
+        return ws | {name}, name
 
     # -- phi placement ------------------------------------------------------
     def _place_phis(self):
@@ -611,6 +763,8 @@ class Analysis:
                     tg = self.pts.get(L, {})
                     if vp == "" and len(tg) == 1:
                         name = next(iter(tg))
+                    elif vp != "" and self.is_value_arg(L):
+                        name = "A%d%s*" % (L, vp)
                     else:
                         name = "P%d%s" % (L, vp)
                     addr = val
@@ -631,7 +785,7 @@ class Analysis:
                     ptr = self.load_region(name, addr, cur)
                     addr = ptr
                     pure_deref = ptr
-                    name = name + "*"
+                    name = self.arg_alias.get(name, name + "*")
                 elif k == "field":
                     name = name + "." + e["name"]
                     if addr is not None and self.collapsed(name):
@@ -700,7 +854,15 @@ class Analysis:
             if ty["k"] in ("ref", "rawptr"):
                 return "A%d" % term[1]
         if term[0] == "mem" and term[3] is None:
-            return term[1] + "*"
+            return self.arg_alias.get(term[1], term[1] + "*")
+        if term[0] == "field":
+            vp = ""
+            t = term
+            while t[0] == "field":
+                vp = "." + t[2] + vp
+                t = t[1]
+            if t[0] == "arg" and self.is_value_arg(t[1]):
+                return "A%d%s*" % (t[1], vp)
         return None
 
     def arg_for_call(self, term, cur, header_only, ty=None):
@@ -806,8 +968,7 @@ class Analysis:
             res = ("site", b, "indirect")
         else:
             fterm = None
-            target = fn.get("resolved") or fn["path"]
-            summ = self.summaries.get(target)
+            summ = self.summary_for(fn)
             res = None
             if summ is not None:
                 res = self.inline_summary(summ, raw_args, cur)
@@ -943,8 +1104,18 @@ def mk_call(key, args, targs, an, cur):
         return ("max", a, b)
     if key == "core::iter::traits::collect::IntoIterator::into_iter" and args:
         return args[0]
+    if key in ("core::option::Option::unwrap", "core::option::Option::expect",
+               "core::option::Option::unwrap_unchecked") and args:
+        return mk_field(("dc", args[0], "Some"), "0", 0)
+    if key in ("core::result::Result::unwrap", "core::result::Result::expect",
+               "core::result::Result::unwrap_unchecked") and args:
+        return mk_field(("dc", args[0], "Ok"), "0", 0)
     if key == "core::convert::From::from" and len(args) == 1 and targs and len(targs) >= 2 and targs[0] == targs[1]:
         return args[0]
+    if key == "graaf::op::contiguous_order::ContiguousOrder::contiguous_order" and getattr(an.prog, "cord_equiv", False):
+        key = "graaf::op::order::Order::order"
+    if key in ("graaf::op::order::Order::order", "graaf::op::contiguous_order::ContiguousOrder::contiguous_order"):
+        targs = ()
     return ("call", key, targs, args)
 
 
@@ -1112,6 +1283,29 @@ def compute_summaries(prog):
                 continue
             out[f["path"]] = (val, regs)
         prog.summaries = dict(out)
+    # ContiguousOrder::contiguous_order == Order::order on every implementor?
+    tr = "graaf::op::contiguous_order::ContiguousOrder"
+    ok = True
+    n = 0
+    for im in prog.impls:
+        if im["trait"] != tr:
+            continue
+        n += 1
+        st = im["self"]
+        co = [it["path"] for it in im["items"] if it["name"] == "contiguous_order"]
+        oi = None
+        for jm in prog.impls:
+            if jm["trait"] == "graaf::op::order::Order" and jm["self"].get("path") == st.get("path"):
+                oi = [it["path"] for it in jm["items"] if it["name"] == "order"]
+        if not co:
+            continue    # uses the default body, which is `self.order()`
+        if not oi or out.get(co[0]) is None or out.get(oi[0]) is None or out[co[0]][0] != out[oi[0]][0]:
+            ok = False
+    dflt = out.get(tr + "::contiguous_order")
+    if dflt is None or dflt[0][0] != "call" or dflt[0][1] != "graaf::op::order::Order::order":
+        ok = False
+    prog.cord_equiv = ok and n > 0
+    prog.cord_impls = n
     return out
 
 
